@@ -155,7 +155,7 @@ def cases(c):
                 out.append({'form': gen.pick(rng, ['function', 'class']), 'window': name, 'N': N, 'NFFT': int(NFFT),
                             'cplx': int(rng.integers(0, 2)), 'kind': gen.pick(rng, KINDS), 'cols': 0,
                             'directed': N <= 2})
-    for i in range(1200 if c.tier == 'quick' else 48000):
+    for i in range(1200 if c.tier == 'quick' else 192000):
         N = int(rng.integers(17, 1025 if i % 8 == 0 else 100))
         out.append({'form': gen.pick(rng, ['function', 'class', 'function2d']), 'window': gen.pick(rng, names), 'N': N,
                     'NFFT': int(gen.pick(rng, gen.nfft_options(N))), 'cplx': int(rng.integers(0, 2)),
@@ -165,7 +165,7 @@ def cases(c):
             for cols in (1, 2, 3):
                 out.append({'form': 'function2d', 'window': name, 'N': N + 3, 'NFFT': 2 * N + 7, 'cplx': int(cols % 2),
                             'kind': 'noise', 'cols': cols, 'directed': True})
-    for i in range(500 if c.tier == 'quick' else 24000):
+    for i in range(500 if c.tier == 'quick' else 96000):
         N = int(rng.integers(1, 41 if i % 4 else 120)) if i >= 6 else 1 + i // 3
         out.append({'form': 'correlogram', 'N': N, 'NFFT': int(gen.pick(rng, [max(1, 2 * N - 1), 2 * N, 2 * N + 1, gen.next_prime(2 * N), 4 * N])),
                     'cplx': int(rng.integers(0, 2)), 'kind': gen.pick(rng, ['noise', 'tones', 'const', 'int', 'dyn']),
